@@ -21,10 +21,13 @@
 (***************************************************************************)
 EXTENDS Integers, Sequences, FiniteSets, TLC
 
-CONSTANTS Variant,  \* "fixed" = tree with the F-C03-3 repair (curve abandoned when a point reaches OR passes the
-                    \* start of the path), "pinned" = the original strict test (index underflow, selftest only),
-                    \* "noabs" = "fixed" with the .abs() dropped in the test that decides whether a curve is needed
-                    \* (selftest only: no curve is built after a sign-encoded zone)
+CONSTANTS Variant,  \* which recalc is transcribed:
+                    \*  "catchup" = the code as it is (F-C03-3 and F-C03-4 repaired): a curve is abandoned when a point
+                    \*              reaches OR passes the start of the path, and idx is then caught up with it
+                    \*  "fixed"   = before the F-C03-4 repair (no catch-up; selftest only: hidden target)
+                    \*  "pinned"  = before the F-C03-3 repair as well (strict exit test; selftest only: index underflow)
+                    \*  "noabs"   = "catchup" with the .abs() dropped in the test that decides whether a curve is needed
+                    \*              (selftest only: no curve is built after a sign-encoded zone)
           E,        \* rounding tolerance of recorded offsets (0 on the model's lattice, 1 on quantised traces)
           VPerO     \* speed units per offset unit per second (1 on the lattice, 2^16/2^6 on traces)
 
@@ -111,6 +114,13 @@ Back(sp, idx, off) == IF idx = 0 THEN 0 ELSE IF off <= sp[idx][1] THEN Back(sp, 
 (* "Exit if the braking point reached or passed the beginning of the path" (braking_point.rs:144-147) *)
 Passed(o) == IF Variant = "pinned" THEN o < 0 ELSE o <= 0
 
+(* "catch the speed point index up with the abandoned curve, as the loop head would have" (braking_point.rs     *)
+(* :146-151, the F-C03-4 repair): when the curve is abandoned at the start of the path idx is brought to the      *)
+(* zone that contains the last curve point (never below the first) before the zone-start point is pushed          *)
+RECURSIVE BackClamp(_, _, _)
+BackClamp(sp, idx, off) == IF idx = 1 THEN 1 ELSE IF off <= sp[idx][1] THEN BackClamp(sp, idx-1, off) ELSE idx
+Left(sp, p2, idx) == IF Variant \in {"catchup", "noabs"} THEN BackClamp(sp, idx, p2[Len(p2)][1]) ELSE idx
+
 (* the inner loop; returns <<points, idx, underflow>> *)
 RECURSIVE Curve(_, _, _)
 Curve(sp, pts, idx0) ==
@@ -122,10 +132,10 @@ Curve(sp, pts, idx0) ==
        THEN \* "exit after adding a couple of points if the next braking curve point will exceed the speed limit"
             LET p2 == Append(pts, Pt(bp[1] - lim, lim, bp[4])) IN      \* carries bp's target into this zone
             IF bp[2] = lim THEN <<p2, idx, FALSE>>
-            ELSE IF Passed(p2[Len(p2)][1]) THEN <<p2, idx, FALSE>> ELSE Curve(sp, p2, idx)
+            ELSE IF Passed(p2[Len(p2)][1]) THEN <<p2, Left(sp, p2, idx), FALSE>> ELSE Curve(sp, p2, idx)
        ELSE \* "Add normal point to braking curve": may jump over sp[idx]'s offset
             LET p2 == Append(pts, Pt(bp[1] - (bp[2] + A \div 2), bp[2] + A, bp[4])) IN
-            IF Passed(p2[Len(p2)][1]) THEN <<p2, idx, FALSE>> ELSE Curve(sp, p2, idx)
+            IF Passed(p2[Len(p2)][1]) THEN <<p2, Left(sp, p2, idx), FALSE>> ELSE Curve(sp, p2, idx)
 
 (* the outer loop over the speed points, last to first; idx = points still to process *)
 RECURSIVE Outer(_, _, _)
